@@ -14,7 +14,7 @@
    up to and at the end of the uint32 range (before the repair they needed the extra hypothesis
    "the counter has not reached 2^32-1" and C07_wrap_refuted exhibited 4294967295, 0). *)
 From Verif Require Import Common RunCounter RunCounter_proofs.
-From Verif Require Import Gen_RunNumberSites Gen_FileCounter RunNumberSites_proofs.
+From Verif Require Import Gen_RunNumberSites Gen_FileCounter Gen_RemoteGlue RunNumberSites_proofs.
 Open Scope N_scope.
 
 (* Numbers handed out later are larger, and all are larger than the value the counter had at
@@ -216,6 +216,34 @@ Theorem C07_file_lock_needed :
   ~ (forall f sched, NoDup (fhanded (frun_nolock (finit f) sched))).
 Proof. exact file_nolock_refutes. Qed.
 Print Assumptions C07_file_lock_needed.
+
+(* The glue between the core and the counter: the remote apricot client (used for apricot://
+   URIs) on top of the gRPC server wrapper on top of the service.  The client hands a number to
+   the core only if the server call got through and the service returned that number without
+   error; in every other case (server stopped / Unavailable, error reply) the core gets an error
+   and the start fails. *)
+Theorem C07_remote_client_faithful : forall reply n,
+  remote_client reply = Some n -> reply = Some (Some n).
+Proof. exact remote_client_faithful. Qed.
+Print Assumptions C07_remote_client_faithful.
+
+Theorem C07_remote_client_error : forall reply,
+  (reply = None \/ reply = Some None) -> remote_client reply = None.
+Proof. exact remote_client_error. Qed.
+Print Assumptions C07_remote_client_error.
+
+(* any sequence of calls, server stops and restarts and counter-file changes: a caller only ever
+   gets a number that the service returned, without error, during that very call *)
+Theorem C07_remote_only_service_numbers : forall ops st up c,
+  Forall (fun o => match fst o with Some n => In (Some n) (snd o) | None => True end) (rrun st up c ops).
+Proof. exact remote_only_service_numbers. Qed.
+Print Assumptions C07_remote_only_service_numbers.
+
+(* [remote_client] is what the two functions do: path analysis of their bodies, from the source *)
+Theorem C07_remote_glue_as_modelled :
+  gen_glue_client_faithful = true /\ gen_glue_server_faithful = true.
+Proof. exact remote_glue_as_modelled. Qed.
+Print Assumptions C07_remote_glue_as_modelled.
 
 (* START_ACTIVITY: no number => the transition is cancelled, state and run number untouched,
    an error is returned — whatever the counter run looked like. *)
